@@ -174,6 +174,21 @@ pub fn product_units(qt: QT, a: u32, b: u32) -> Option<Wide> {
     }
 }
 
+/// The posit equal to exactly 2^s, if there is one.
+pub fn pow2_posit(qt: QT, s: i32) -> Option<u32> {
+    let sh = s + qt.f() as i32;
+    if sh < 0 || sh as u32 >= qt.w() - 1 {
+        return None;
+    }
+    let w = Wide::one_shl(sh as u32);
+    let r = round_exact(qt, &w);
+    if posit_units(qt, r.posit) == Some(w) {
+        Some(r.posit)
+    } else {
+        None
+    }
+}
+
 #[derive(Clone, Copy, Debug, Default)]
 pub struct Rounded {
     /// result by the posit rule (encoding midpoint)
